@@ -100,6 +100,16 @@ CLAIMED["C41"] = ("concolic execution (pysym+z3) of WaveCharacter; jaxpr->SMT of
                   "bounded SMT verification: period*frequency == 1 and wavelength == c*period for each given; the sampled custom signal is exact at samples and linear between them for all signals and times; |continuous-wave amplitude| <= ramp <= 1, Gaussian envelopes in (0,1]",
                   "reals for floats; signals of 2-6 samples; nearest-mode values between samples and Tukey window out of scope", "4/C41")
 
+CLAIMED["C15"] = ("jaxpr->SMT (z3) of one forward step with field detectors at every contact class, against an independent restatement of the co-location stencil",
+                  "bounded SMT verification: for all E, H the record of every exactly-interpolating detector equals the documented co-location (half-step averages, width-weighted on non-uniform grids, mean of adjacent H half-steps) of the full-domain field with zero / wrap / electric-mirror halo, restricted to its box -- interior fast path and edge fallback alike; non-interpolating detectors record the raw components",
+                  "reals for floats; shapes <= 6x4x4; FieldDetector only; non-uniform grids with non-periodic axes; Bloch halo and magnetic planes out of scope", "4/C15")
+CLAIMED["C33"] = ("jaxpr->SMT (z3) of the full-domain run from the unfolded input vs the unfolded reduced-domain run, both placed by the real code",
+                  "bounded SMT verification: for all reduced-domain fields satisfying the wall condition, unfold(reduced run) equals the full-domain run and the co-located detector record of the reduced run equals the kept half of the full record, on every cell outside the light cone of the discarded half's far wall, for each axis as symmetry axis",
+                  "reals for floats; n = 4-5 cells per half, T = 2-3 steps; electric planes only; no sources", "4/C33")
+CLAIMED["C36"] = ("jaxpr->SMT (z3) of one forward step of a dispersive scene with symbolic fields, polarisations and coefficient arrays",
+                  "bounded SMT verification of clause 1 only: the stored polarisation follows c1 P + c2 P_prev + c3 E on every cell; cells with all-zero coefficients (and zero history) evolve exactly like the same scene without dispersion; all-zero coefficients reproduce the non-dispersive step.  Clause 2 (energy bounded for 1e4 steps) is not encodable and NOT claimed",
+                  "reals for floats; Lorentz/Drude poles, isotropic and per-axis; CCPR (c4), oriented poles and the full-tensor branch out of scope", "4/C36")
+
 NOT_APPLICABLE = {
     "C12": "numerical accuracy bound (1e-6 residual energy after >=1e3 steps on >=40^3 cells in floating point); no algebraic identity, far beyond any bounded real-arithmetic encoding",
     "C13": "1e-3 power-ratio bound after hundreds of steps (TFSF leakage is small but non-zero by design); not an identity, out of reach for bounded real arithmetic",
